@@ -143,7 +143,7 @@ pub const COMPOUND_SUFFIXES: &[&str] = &["go.mod", "go.sum", "go.work", "d.ts"];
 /// Whether a file name maps to a grammar: every dot-suffix of the base name is tried (so
 /// `x.go.mod` and `a.d.ts` are found), then the whole name (`go.mod`); `-E ext=known` adds
 /// `ext`. `legacy.mod`, `notes.sum` map to nothing and must be skipped silently.
-fn known_extension(path: &str, extra: &[(String, String)]) -> bool {
+pub fn known_extension(path: &str, extra: &[(String, String)]) -> bool {
     let name = path.rsplit('/').next().unwrap_or(path);
     let known = |s: &str| {
         KNOWN_EXTENSIONS.contains(&s) || COMPOUND_SUFFIXES.contains(&s) || extra.iter().any(|(k, _)| k == s)
@@ -824,7 +824,7 @@ pub fn invalid_reason(world: &World) -> Option<String> {
     }
     let rendered = render_all(world, &BTreeSet::new());
     for (f, r) in world.files.iter().zip(&rendered) {
-        let leader = comment_leader(&f.path);
+        let leader = comment_leader(&f.written_as());
         for b in &r.blocks {
             let mut seen = BTreeSet::new();
             for (k, v) in &b.attrs {
